@@ -265,7 +265,8 @@ def tlc_jobs(tier: str) -> dict:
     else:
         for i in range(THOROUGH_PARTS):   # THOROUGH_PARTS residues of THOROUGH_STRIDE: a seeded THOROUGH_PARTS/THOROUGH_STRIDE of all two-edge chains
             jobs[f"depth3-{i}"] = dict(constants=dict(DEPTH=3, FAMILY="chain", STRIDE=THOROUGH_STRIDE, OFFSET=(SEED + i * 5) % THOROUGH_STRIDE, DOMAIN="all", EMIT="TRUE", FIXED=FIXED_TLA, REVERTED=""), workers=6, heap="3g")
-    jobs["lambda"] = dict(constants=dict(DEPTH=2, FAMILY="lambda", STRIDE=1, OFFSET=0, DOMAIN="all", EMIT="TRUE", FIXED=FIXED_TLA, REVERTED=""), workers=1)
+    # lambda parameter lists: <= DEPTH positional-only, <= DEPTH + 1 positional-or-keyword, every number of defaults
+    jobs["lambda"] = dict(constants=dict(DEPTH=2 if tier == "quick" else 3, FAMILY="lambda", STRIDE=1, OFFSET=0, DOMAIN="all", EMIT="TRUE", FIXED=FIXED_TLA, REVERTED=""), workers=1)
     jobs["defect"] = dict(cfg="ExprBuild_defect.cfg", constants=dict(DEPTH=2, FAMILY="chain", STRIDE=1, OFFSET=0, DOMAIN="defect", EMIT="FALSE", FIXED=FIXED_TLA, REVERTED=""), workers=1, dump_trace=True)
     for x in APPLIED:      # model-only regression domain, one job per committed repair (depth-first: the first old defect ends the job)
         jobs[f"regress-{x}"] = dict(cfg="ExprBuild_regress.cfg", workers=1, dump_trace=True, dfs_queue=True,
@@ -343,8 +344,8 @@ def main(tier: str, replay: str | None = None):
         run.note(f"baseline includes the proposed repairs {sorted(FIXED)}: the model's Impl is the repaired behaviour for them")
     run.rule = ("ExprBuild.tla: chains of node templates (80 shapes over the 28 node types of _node_map, 13 binary / 4 unary / 2 boolean / 10 comparison operators): "
                 "every single shape, every (parent shape, slot, child shape) edge, two-edge chains (all in thorough, a seeded 1/37 in quick), each as value and - when strings "
-                "occur - as annotation with and without postponed evaluation; every lambda parameter list with <=2 positional-only, <=2 positional-or-keyword, <=2 keyword-only, "
-                "defaults, *args, **kwargs. Non-trivial = a chain with at least one edge or a lambda with parameters; distinct by chain / parameter list.")
+                "occur - as annotation with and without postponed evaluation; every lambda parameter list with <=2/3 positional-only, <=3/4 positional-or-keyword, every number of "
+                "right-aligned defaults, <=2 keyword-only with every default mask, *args, **kwargs. Non-trivial = a chain with at least one edge or a lambda with parameters; distinct by chain / parameter list.")
     stats = new_stats()
     warnings.filterwarnings("ignore", category=SyntaxWarning)
     if replay:
@@ -355,7 +356,7 @@ def main(tier: str, replay: str | None = None):
             e.pop("expect_every_run", None)      # a single case cannot re-observe every finding
         c = rec["case"]["case"]
         fam = "lambda" if not c["chain"] else "chain"
-        depth = max(2, len(c["chain"]))
+        depth = max(2, len(c["chain"])) if c["chain"] else 3
         res = tlc.must(tlc.run("ExprBuild", "ExprBuild_check.cfg", workers=4, timeout=1100,
                                constants=dict(DEPTH=depth, FAMILY=fam, STRIDE=1, OFFSET=0, DOMAIN="all", EMIT="TRUE",
                                               FIXED=", ".join(f'"{f}"' for f in sorted(FIXED)), REVERTED="")))
@@ -424,7 +425,7 @@ def main(tier: str, replay: str | None = None):
         die(f"C03: TLC's counterexample {ce['chain']} is not among the emitted cases")
     run.extra["tlc_counterexample"] = {"chain": ce["chain"], "bad": sorted(b["cause"] for b in ce["bad"]), "replayed_as": case_id(witness[0])}
     # vacuity: the case space has the expected size
-    if counts["depth<=2"] < 5000 or counts["lambda"] < 500 or counts["depth3"] < (3000 if tier == "quick" else 80000):
+    if counts["depth<=2"] < 5000 or counts["lambda"] < 1000 or counts["depth3"] < (3000 if tier == "quick" else 80000):
         die(f"C03: case space shrank: {counts}")
     if not stats["clean"] or stats["clean"] == seq:
         die(f"C03: the clean domain ({stats['clean']} of {seq} cases) is empty or everything - CleanHolds / NoDefect are vacuous")
